@@ -124,6 +124,9 @@ def run(ctx):
     rep = ctx.rep
     rep.rule("C10.R8", "equivariance typing (K20) of every interpolation kernel: the returned position transforms as a point, the rotation left-covariantly, both strains are invariant under a superposed rigid motion of the nodes", 20)
     equivariance(ctx)
+    rep.rule("C10.R9", "memoised rod routines (kernels, and anything a change adds: residuals, forces) are keyed by every argument the result depends on: a compliance residual served from a cache keyed without la_c reports a stale non-zero value at the reference configuration", 8)
+    from . import c26 as _c26
+    _c26.r1_keys(ctx, _c26.find_sites(ctx), rule="C10.R9", want_cls=lambda ci: ci.rel.startswith("cardillo/rods/"))
     rep.rule("C10.R7", "rod routines do not modify in place what the memoised interpolation kernels (_eval / _deval / A_IB) hand out (K18): strains, energy and internal forces stay functions of the state", 10)
     from .. import cachepurity as _cp
     _cp.report(ctx, "C10.R7", ("cardillo/rods/",), floor_note=False)
@@ -343,4 +346,10 @@ MUTANTS += [
 NEUTRAL += [
     dict(id="c10-n-r8", canary=True, what="R12 kernel: curvature as skew2ax(A_IB.T @ A_IB_xi) (the same material curvature)", file=CR,
          edits=[(CR,) + _IMP, (CR, _KAPPA, "            B_Kappa_bar = skew2ax(A_IB.T @ A_IB_xi)\n\n            return r_OP, A_IB, B_Gamma_bar, B_Kappa_bar\n")]),
+]
+
+MUTANTS += [
+    dict(id="c10-r9-seed", canary=True, what="[seeded by sub-agent] a rod routine that depends on la_c memoised with the rigid-body key pattern hashkey(t, *q)", file='cardillo/rods/_base.py',
+         old="    def h_u(self, t, q, u):\n        coo = CooMatrix((self.nu, self.nu))\n",
+         new="    @cachedmethod(lambda self: self._hu_cache, key=lambda self, t, q, u: hashkey(t, *q))\n    def h_u(self, t, q, u):\n        coo = CooMatrix((self.nu, self.nu))\n", expect="C10.R9"),
 ]
